@@ -204,6 +204,11 @@ func (j *Joe) Shutdown(ctx context.Context) (err error) {
 }
 
 func (j *Joe) removeSubscriber(sub subscriber) {
+	if _, ok := j.subscribers[sub]; !ok {
+		// Already removed, for example because sending to it failed
+		// right before its unsubscription was received.
+		return
+	}
 	delete(j.subscribers, sub)
 	close(sub)
 }
